@@ -53,6 +53,7 @@ type Case struct {
 	Choices  []int      `json:"choices"`
 	Schedule []string   `json:"schedule,omitempty"`
 	Racing   bool       `json:"history_concurrent_with_cache_creation,omitempty"`
+	Between  bool       `json:"queries_after_every_operation,omitempty"`
 }
 
 var scratch string
@@ -98,6 +99,13 @@ func histories(depth int) [][]fsops.Op {
 	return out
 }
 
+func eqSorted(a, b []string) bool {
+	a, b = append([]string{}, a...), append([]string{}, b...)
+	sort.Strings(a)
+	sort.Strings(b)
+	return len(a) == len(b) && (len(a) == 0 || reflect.DeepEqual(a, b))
+}
+
 func configured(root string) (paths []string, set map[string]bool) {
 	set = map[string]bool{}
 	for _, d := range dirs {
@@ -124,6 +132,15 @@ func same(a, b dirmodel.Observation, dirSet map[string]bool) (bool, string, stri
 	if !reflect.DeepEqual(a.Paths, b.Paths) || !reflect.DeepEqual(a.Markers, b.Markers) {
 		return false, "definitions", fmt.Sprintf("definitions %v, a fresh cache has %v", a.Markers, b.Markers)
 	}
+	if !eqSorted(a.Vendors, b.Vendors) {
+		return false, "vendors", fmt.Sprintf("vendors %v, a fresh cache lists %v", a.Vendors, b.Vendors)
+	}
+	if !eqSorted(a.Classes, b.Classes) {
+		return false, "classes", fmt.Sprintf("classes %v, a fresh cache lists %v", a.Classes, b.Classes)
+	}
+	if !reflect.DeepEqual(a.Specs, b.Specs) && !(len(a.Specs) == 0 && len(b.Specs) == 0) {
+		return false, "vendor-specs", fmt.Sprintf("Spec files per vendor %v, a fresh cache has %v", a.Specs, b.Specs)
+	}
 	ea, eb := fileErrs(a), fileErrs(b)
 	if !reflect.DeepEqual(ea, eb) && !(len(ea) == 0 && len(eb) == 0) {
 		return false, "errors", fmt.Sprintf("files in error %v, a fresh cache reports %v", ea, eb)
@@ -134,7 +151,9 @@ func same(a, b dirmodel.Observation, dirSet map[string]bool) (bool, string, stri
 // scenario: the cache is created, then the history happens (racing: the history is performed by
 // a second thread while NewCache runs: a change landing anywhere between the initial scan of a
 // directory and the registration of its watch), then quiescence, queries and probes.
-func scenario(h []fsops.Op, eager bool, preempt int, racing bool) *explore.Scenario {
+// between: the cache is also queried (all listings) after every operation of the history, at
+// quiescence: whatever a query leaves behind must not survive the next change.
+func scenario(h []fsops.Op, eager bool, preempt int, racing, between bool) *explore.Scenario {
 	sc := &explore.Scenario{Name: fmt.Sprint(h), Eager: eager, Bounds: explore.Bounds{Preemptions: preempt}, MaxSteps: 50000}
 	sc.New = func() *explore.Instance {
 		root := filepath.Join(scratch, "x")
@@ -148,15 +167,20 @@ func scenario(h []fsops.Op, eager bool, preempt int, racing bool) *explore.Scena
 		var probed, probeSeen []string
 		in := &explore.Instance{Names: []string{"main"}}
 		in.Threads = []func(){func() {
+			var cache *cdi.Cache
 			history := func() {
 				for i, op := range h {
 					if err := fsops.Apply(modelFS{}, root, op, i); err != nil {
 						applyErr = fmt.Errorf("%s: %w", op, err)
 						return
 					}
+					if between && i < len(h)-1 {
+						sched.Quiesce("operation done")
+						_ = dirmodel.Observe(cache)
+						sched.Quiesce("queries after the operation done")
+					}
 				}
 			}
-			var cache *cdi.Cache
 			if racing {
 				changerDone := false
 				sched.Go("changer", false, 0, func() {
@@ -326,6 +350,7 @@ type workerOut struct {
 	Infra      string              `json:"infra"`
 	Events     []string            `json:"model_events"`
 	Racing     bool                `json:"racing"`
+	Between    bool                `json:"between"`
 	Pruned     int64               `json:"pruned"`
 	States     int64               `json:"states"`
 }
@@ -374,15 +399,20 @@ func main() {
 				}
 				ev := modelEvents(h)
 				for _, eager := range []bool{true, false} {
-					res := explore.Explore(scenario(h, eager, preempt, false), time.Unix(dl, 0))
+					res := explore.Explore(scenario(h, eager, preempt, false, false), time.Unix(dl, 0))
 					_ = enc.Encode(workerOut{Index: k, Eager: eager, Executions: res.Executions, Points: res.Points, Outcomes: res.Outcomes, Violations: res.Violations, Capped: res.Capped, Infra: res.Infra, Events: ev, Pruned: res.Pruned, States: res.States})
+					if len(h) >= 2 {
+						// the same history with a full round of queries after every operation
+						res := explore.Explore(scenario(h, eager, preempt, false, true), time.Unix(dl, 0))
+						_ = enc.Encode(workerOut{Index: k, Eager: eager, Between: true, Executions: res.Executions, Points: res.Points, Outcomes: res.Outcomes, Violations: res.Violations, Capped: res.Capped, Infra: res.Infra, Events: ev, Pruned: res.Pruned, States: res.States})
+					}
 					if len(h) <= raceLen {
 						// the same history concurrent with the creation of the cache
 						p := preempt
 						if p < 1 {
 							p = 1
 						}
-						res := explore.Explore(scenario(h, eager, p, true), time.Unix(dl, 0))
+						res := explore.Explore(scenario(h, eager, p, true, false), time.Unix(dl, 0))
 						_ = enc.Encode(workerOut{Index: k, Eager: eager, Racing: true, Executions: res.Executions, Points: res.Points, Outcomes: res.Outcomes, Violations: res.Violations, Capped: res.Capped, Infra: res.Infra, Events: ev, Pruned: res.Pruned, States: res.States})
 					}
 				}
@@ -406,7 +436,7 @@ func main() {
 	if r.Replay != "" {
 		var c Case
 		r.LoadReplay(&c)
-		sc := scenario(c.History, c.Eager, 99, c.Racing)
+		sc := scenario(c.History, c.Eager, 99, c.Racing, c.Between)
 		_, _, v1 := explore.RunOnce(sc, c.Choices, true)
 		_, _, v2 := explore.RunOnce(sc, c.Choices, true)
 		os.RemoveAll(scratch)
@@ -446,7 +476,7 @@ func main() {
 		if json.Unmarshal(b, &doc) != nil || len(doc.Case.History) == 0 {
 			continue
 		}
-		e, _, v := explore.RunOnce(scenario(doc.Case.History, doc.Case.Eager, 99, doc.Case.Racing), doc.Case.Choices, false)
+		e, _, v := explore.RunOnce(scenario(doc.Case.History, doc.Case.Eager, 99, doc.Case.Racing, doc.Case.Between), doc.Case.Choices, false)
 		if e.Diverged != "" {
 			continue // the code changed shape; the recorded schedule no longer applies
 		}
@@ -492,6 +522,7 @@ func main() {
 		h     []fsops.Op
 		eager bool
 		race  bool
+		betw  bool
 	}
 	var violations []found
 	passing := map[int]bool{}
@@ -519,7 +550,7 @@ func main() {
 			passing[o.Index] = false
 		}
 		for _, v := range o.Violations {
-			violations = append(violations, found{v, hs[o.Index], o.Eager, o.Racing})
+			violations = append(violations, found{v, hs[o.Index], o.Eager, o.Racing, o.Between})
 		}
 	}
 	// ---- conformance of the virtual fsnotify with the real one, on every history
@@ -586,7 +617,10 @@ func main() {
 		if f.race {
 			note = "the history runs while the cache is being created (schedule in the replay file)"
 		}
-		if deviations == 0 && !f.race {
+		if f.betw {
+			note = "the cache is queried after every operation of the history (schedule in the replay file)"
+		}
+		if deviations == 0 && !f.race && !f.betw {
 			var ro struct {
 				Converged []bool   `json:"converged"`
 				Detail    []string `json:"detail"`
@@ -602,7 +636,7 @@ func main() {
 			confirmed++
 			note = "confirmed on the unmodified build with the real fsnotify: not converged after 3 s (" + ro.Detail[0] + ")"
 		}
-		r.Fail(&hx.Failure{Sig: f.v.Sig, Msg: f.v.Msg + " — " + note, Case: Case{History: f.h, Eager: f.eager, Choices: f.v.Choices, Schedule: f.v.Schedule, Racing: f.race}, Rank: int64(len(f.h)*1000 + len(f.v.Choices))})
+		r.Fail(&hx.Failure{Sig: f.v.Sig, Msg: f.v.Msg + " — " + note, Case: Case{History: f.h, Eager: f.eager, Choices: f.v.Choices, Schedule: f.v.Schedule, Racing: f.race, Between: f.betw}, Rank: int64(len(f.h)*1000 + len(f.v.Choices))})
 	}
 	if unconfirmed > 0 {
 		die(2, "INFRA: violations not confirmed by the real replay:", unconfirmed)
